@@ -53,6 +53,25 @@ CLAIMED = {
              "VerifAllocator, ASan for use-after-release.",
         technique="TLA+ spec + TLC model checking per geometry; trace validation of hook/allocator events",
     ),
+    "C19": dict(
+        category="model_checking",
+        text="SlotPool.tla transcribes the pool-table arithmetic with the code's integer widths and is model-checked "
+             "over a geometry matrix (capacities that do not divide 2^bits, inline pool counts that are not powers "
+             "of two): NoWrap, CapacityBound, Accounting; the arithmetic of the pinned tree before the fix is kept "
+             "as a variant and must still be refuted (non-vacuity). Document.tla has no geometry constants, so the "
+             "behaviours TLC generates from it are replayed on a matrix of build configurations (slot id 1/2/4, pool "
+             "capacity 2..256, 1..4 inline pools, string length 1/2/4) and must give identical observations. Limit "
+             "histories per configuration are validated by LimitsTrace.tla, which derives the expected counts from "
+             "the geometry (MaxSlots, MaxSlots div 2, MaxLen-1/MaxLen/MaxLen+1, MaxSlots users of one string, "
+             "deserialization at and one above the limit) and the clean-failure postconditions.",
+        design_ref="DESIGN.md §4 C19",
+        note="Limits of 4-byte ids/lengths are not reachable (only equivalence below the limit). After shrinkToFit "
+             "the ids of the released tail of the last pool stay unusable (effective limit lower): documented, not "
+             "exercised at the limit. Known finding: sticky overflowed() makes string add()/set() report failure "
+             "after a removal until clear().",
+        technique="TLA+ spec + TLC model checking over geometries; replay on a configuration matrix; limit traces "
+                  "validated by TLC",
+    ),
 }
 
 NOT_YET = {
